@@ -37,7 +37,43 @@ func TestVerif_C28(t *testing.T) {
 		m.DeviceCodeClientID = vals[x.Choose(len(vals), "dc_client_id")]
 		m.DeviceCodeClientSecret = vals[x.Choose(len(vals), "dc_client_secret")]
 		m.UseIDTokenAsBearer = x.Bool("id_token")
+		vfC28RoundTrip(x, m, "")
+	})
 
+	// Sizes: Validate bounds the alphabet of the credential fields, not their length (client
+	// secrets are often JWT-sized), so every field takes lengths across 0 .. 4000 and the resource
+	// path is short or long; the challenge ranges from ~100 bytes to ~17 KiB.
+	lens := []int{0, 1, 300, 700, 1100, 4000}
+	if !venum.Thorough() {
+		lens = []int{0, 1, 700, 1100}
+	}
+	long := func(n int, seed byte) string {
+		const abc = "abcdefghijklmnopqrstuvwxyzABCDEFGHIJKLMNOPQRSTUVWXYZ0123456789-._~"
+		b := make([]byte, n)
+		for i := range b {
+			b[i] = abc[(i*7+int(seed))%len(abc)]
+		}
+		return string(b)
+	}
+	venum.Explore(t, venum.Cfg{Name: "long-values", Shardable: true}, func(x *venum.X) {
+		m := &OAuthResourceMetadata{AuthorizationServers: []string{"https://idp.example.com"}}
+		m.Resource = "https://api.example.com/vgi"
+		if x.Bool("long-resource") {
+			m.Resource = "https://api.example.com/" + long(900, 3) + "/vgi"
+		}
+		m.ClientID = long(lens[x.Choose(len(lens), "client_id")], 1)
+		m.ClientSecret = long(lens[x.Choose(len(lens), "client_secret")], 2)
+		m.DeviceCodeClientID = long(lens[x.Choose(len(lens), "dc_client_id")], 5)
+		m.DeviceCodeClientSecret = long(lens[x.Choose(len(lens), "dc_client_secret")], 11)
+		m.UseIDTokenAsBearer = x.Bool("id_token")
+		vfC28RoundTrip(x, m, ":long-challenge")
+	})
+}
+
+// vfC28RoundTrip serves a 401 from a real HttpServer configured with m and checks that every
+// Parse* helper recovers exactly what m advertises.
+func vfC28RoundTrip(x *venum.X, m *OAuthResourceMetadata, suffix string) {
+	{
 		srv := NewServer()
 		h := NewHttpServer(srv)
 		h.SetAuthenticate(func(r *http.Request) (*AuthContext, error) {
@@ -63,7 +99,7 @@ func TestVerif_C28(t *testing.T) {
 		}
 		check := func(field, got, want string) {
 			if got != want {
-				x.Failf("C28:"+field+":"+shape(want != ""), "header %q: parsed %s=%q, advertised %q", hdr, field, got, want)
+				x.Failf("C28:"+field+":"+shape(want != "")+suffix, "header %.300q: parsed %s=%q, advertised %q", hdr, field, got, want)
 			}
 		}
 		check("resource_metadata", ParseResourceMetadataURL(hdr), wantURL)
@@ -72,8 +108,12 @@ func TestVerif_C28(t *testing.T) {
 		check("device_code_client_id", ParseDeviceCodeClientID(hdr), m.DeviceCodeClientID)
 		check("device_code_client_secret", ParseDeviceCodeClientSecret(hdr), m.DeviceCodeClientSecret)
 		if ParseUseIDTokenAsBearer(hdr) != m.UseIDTokenAsBearer {
-			x.Failf("C28:use_id_token_as_bearer", "header %q: parsed %v want %v", hdr, ParseUseIDTokenAsBearer(hdr), m.UseIDTokenAsBearer)
+			x.Failf("C28:use_id_token_as_bearer"+suffix, "header %.300q: parsed %v want %v", hdr, ParseUseIDTokenAsBearer(hdr), m.UseIDTokenAsBearer)
 		}
-		x.Outcome("%s", hdr)
-	})
+		if len(hdr) > 400 {
+			x.Outcome("len=%d id=%d sec=%d dcid=%d dcsec=%d idtok=%v", len(hdr), len(m.ClientID), len(m.ClientSecret), len(m.DeviceCodeClientID), len(m.DeviceCodeClientSecret), m.UseIDTokenAsBearer)
+		} else {
+			x.Outcome("%s", hdr)
+		}
+	}
 }
